@@ -30,7 +30,7 @@ var Checks = map[string]CheckSpec{
 	"C03": {Property: "C03", Level: "exploration", Profiles: []string{"book", "book", "rounds"}, QuickS: 50, ThoroughS: 600},
 	"C04": {Property: "C04", Level: "exploration", Profiles: []string{"book", "fixed", "book", "general"}, QuickS: 50, ThoroughS: 600},
 	"C05": {Property: "C05", Level: "exploration", Profiles: []string{"book", "fixed", "rounds", "general"}, QuickS: 45, ThoroughS: 600},
-	"C06": {Property: "C06", Level: "exploration", Profiles: []string{"fixed", "fixed", "general"}, QuickS: 45, ThoroughS: 600},
+	"C06": {Property: "C06", Level: "exploration", Profiles: []string{"fixed", "fixed", "general"}, Opts: ExecOpts{Lin: true}, QuickS: 45, ThoroughS: 600},
 	"C07": {Property: "C07", Level: "fault_enumeration", Profiles: []string{"general", "idle", "extreme", "clock", "book"}, Opts: ExecOpts{BankFailEnum: true, MaxEnumBlocks: 5}, QuickS: 60, ThoroughS: 900},
 	"C08": {Property: "C08", Level: "exploration", Profiles: []string{"clock", "general", "rounds"}, QuickS: 45, ThoroughS: 600},
 	"C09": {Property: "C09", Level: "exploration", Profiles: []string{"vesting", "clock", "general"}, QuickS: 45, ThoroughS: 600},
@@ -42,6 +42,7 @@ var Checks = map[string]CheckSpec{
 	"C15": {Property: "C15", Level: "exploration", Profiles: []string{"genesis"}, QuickS: 50, ThoroughS: 600},
 	"C16": {Property: "C16", Level: "exploration", Profiles: []string{"book", "rounds", "fixed", "vesting"}, Opts: ExecOpts{Queries: true, QueryEvery: 4}, QuickS: 45, ThoroughS: 600},
 	"C17": {Property: "C17", Level: "fault_enumeration", Custom: "hooks", Profiles: []string{"hooks", "book", "clock", "fixed"}, QuickS: 40, ThoroughS: 600},
+	"C20": {Property: "C20", Level: "exploration", Custom: "cli", QuickS: 60, ThoroughS: 600},
 	"C18": {Property: "C18", Level: "exploration", Profiles: []string{"messages", "general"}, Opts: ExecOpts{Trace: true}, QuickS: 50, ThoroughS: 600},
 	"C19": {Property: "C19", Level: "exploration", Profiles: []string{"concurrent", "general"}, Opts: ExecOpts{Trace: true}, QuickS: 50, ThoroughS: 600},
 }
@@ -481,6 +482,7 @@ func SpecFor(prop, tier string) CheckSpec {
 // reports, shrinks and writes replay files, prints VIOLATION / KNOWN-FINDING
 // lines, writes evidence. Returns the process exit code.
 func RunCheck(self string, prop, tier, verifDir string) int {
+	selfTestViolation := false
 	spec, ok := Checks[prop]
 	if !ok {
 		fmt.Printf("unknown property %s\n", prop)
@@ -498,6 +500,28 @@ func RunCheck(self string, prop, tier, verifDir string) int {
 	spec = SpecFor(prop, tier)
 	if spec.Custom != "" && spec.Custom != "hooks" {
 		return runCustom(spec, tier, seed, verifDir, start)
+	}
+	nst := 2
+	stProcs := []int{1, 16}
+	if tier == "thorough" {
+		nst = 12
+		stProcs = []int{1, 4, 16}
+	}
+	stProfiles := spec.Profiles
+	if len(stProfiles) == 0 {
+		stProfiles = []string{"general"}
+	}
+	st := SelfTest(self, seed, nst, stProfiles, stProcs, 1, prop)
+	selfTestExtra := map[string]interface{}{"determinism_selftest": st}
+	if st.Mismatches > 0 {
+		fmt.Printf("NONDETERMINISM: %d of %d cross-process comparisons differ: %v\n", st.Mismatches, st.Compared, st.Examples)
+		if prop == "C14" && st.FirstSeed != 0 {
+			s := Generate(st.FirstSeed, st.FirstProf)
+			rf := &ReplayFile{Property: "C14", Rule: "crossprocess.trace", Key: "selftest", Detail: "the same schedule executed in two OS processes produced different traces: " + strings.Join(st.Examples, "; "), Seed: st.FirstSeed, Profile: st.FirstProf, Opts: spec.Opts, Schedule: s}
+			path, _ := WriteReplay(filepath.Join(verifDir, "replays"), rf)
+			fmt.Printf("VIOLATION property=C14 replay=%s\n", path)
+			selfTestViolation = true
+		}
 	}
 	tmp, err := os.MkdirTemp("", "verif-"+prop+"-")
 	if err != nil {
@@ -563,7 +587,10 @@ func RunCheck(self string, prop, tier, verifDir string) int {
 		fmt.Println("harness errors: the simulator itself failed; this is not a verdict on the property")
 		return 2
 	}
-	exit := reportAndEvidence(spec, tier, seed, verifDir, total, start, nil)
+	exit := reportAndEvidence(spec, tier, seed, verifDir, total, start, selfTestExtra)
+	if selfTestViolation {
+		exit = 1
+	}
 	return exit
 }
 
@@ -713,7 +740,11 @@ func firstN(xs []int64, n int) []int64 {
 }
 
 func runCustom(spec CheckSpec, tier string, seed int64, verifDir string, start time.Time) int {
-	fmt.Println("custom engine not built yet:", spec.Custom)
+	switch spec.Custom {
+	case "cli":
+		return runCLICheck(spec, tier, seed, verifDir, start)
+	}
+	fmt.Println("unknown custom engine:", spec.Custom)
 	return 2
 }
 
@@ -726,4 +757,83 @@ func hasHookFault(s *Schedule) bool {
 		}
 	}
 	return false
+}
+
+// ---------------------------------------------------------------- determinism self-test
+
+type SelfTestResult struct {
+	Seeds       int      `json:"seeds"`
+	Executions  int      `json:"executions"`
+	Compared    int      `json:"pairs_compared"`
+	Mismatches  int      `json:"mismatches"`
+	GoMaxProcs  []int    `json:"gomaxprocs"`
+	Examples    []string `json:"mismatch_examples,omitempty"`
+	FirstSeed   int64    `json:"first_mismatch_seed,omitempty"`
+	FirstProf   string   `json:"first_mismatch_profile,omitempty"`
+}
+
+// SelfTest executes the same seeds in separate OS processes at several
+// GOMAXPROCS values, `reps` times each, and compares the trace hashes.
+func SelfTest(self string, base int64, nSeeds int, profiles []string, procs []int, reps int, prop string) *SelfTestResult {
+	r := &SelfTestResult{Seeds: nSeeds, GoMaxProcs: procs}
+	type job struct {
+		seed int64
+		prof string
+		gmp  int
+		out  string
+		err  error
+	}
+	var jobs []*job
+	for i := 0; i < nSeeds; i++ {
+		seed := SeedFor(base, 4242, i)
+		prof := profiles[i%len(profiles)]
+		for _, g := range procs {
+			for k := 0; k < reps; k++ {
+				jobs = append(jobs, &job{seed: seed, prof: prof, gmp: g})
+			}
+		}
+	}
+	sem := make(chan struct{}, 16)
+	done := make(chan struct{})
+	for _, j := range jobs {
+		j := j
+		go func() {
+			sem <- struct{}{}
+			defer func() { <-sem; done <- struct{}{} }()
+			cmd := exec.Command(self, "tracehash", "--seed", fmt.Sprint(j.seed), "--profile", j.prof, "--prop", prop)
+			cmd.Env = append(os.Environ(), fmt.Sprintf("GOMAXPROCS=%d", j.gmp))
+			b, err := cmd.Output()
+			j.err = err
+			lines := strings.Split(strings.TrimSpace(string(b)), "\n")
+			j.out = lines[len(lines)-1]
+		}()
+	}
+	for range jobs {
+		<-done
+	}
+	first := map[string]string{}
+	for _, j := range jobs {
+		r.Executions++
+		k := fmt.Sprintf("%d/%s", j.seed, j.prof)
+		if j.err != nil {
+			r.Mismatches++
+			r.Examples = append(r.Examples, fmt.Sprintf("seed %d profile %s GOMAXPROCS=%d: process failed: %v", j.seed, j.prof, j.gmp, j.err))
+			continue
+		}
+		if f, ok := first[k]; !ok {
+			first[k] = j.out
+		} else {
+			r.Compared++
+			if f != j.out {
+				r.Mismatches++
+				if r.FirstSeed == 0 {
+					r.FirstSeed, r.FirstProf = j.seed, j.prof
+				}
+				if len(r.Examples) < 3 {
+					r.Examples = append(r.Examples, fmt.Sprintf("seed %d profile %s GOMAXPROCS=%d: %s vs %s", j.seed, j.prof, j.gmp, j.out, f))
+				}
+			}
+		}
+	}
+	return r
 }
